@@ -141,7 +141,7 @@ pub fn builtin(_thorough: bool) -> Vec<TextCase> {
     ];
     let tys = [
         "A", "S<A>", "S<[A]>", "(A, A)", "(A, [A])", "([A], A)", "()", "[A; 2]", "[A]", "str", "&'static A",
-        "&'static mut A", "*const [A]", "fn(A) -> A", "u32", "!", "dyn Foo", "S<str>", "(u32, S<A>)", "[S<A>; 2]",
+        "&'static mut A", "*const [A]", "fn(A) -> A", "u32", "!", "(dyn Foo + 'static)", "S<str>", "(u32, S<A>)", "[S<A>; 2]",
         "&'static [A]", "(S<A>,)",
     ];
     let traits = ["Sized", "Copy", "Clone", "Tuple", "FnPtr"];
